@@ -322,22 +322,48 @@ func checkC16(w *World, r *Report) {
 		um := w.Method("schema", "union", "Validate")
 		ufd, _ := w.FuncDecl(um)
 		okU := false
-		ast.Inspect(ufd.Body, func(x ast.Node) bool {
-			rs, isR := x.(*ast.RangeStmt)
-			if !isR {
-				return true
+		if uf := w.SSAFunc(um); uf != nil && len(uf.Params) == 4 {
+			val := uf.Params[3]
+			// a member's Validate is handed the string union.Validate was given — directly, or inside a function
+			// literal that captures it
+			isVal := func(v ssa.Value, in *ssa.Function) bool {
+				if v == ssa.Value(val) {
+					return true
+				}
+				ld, ok := v.(*ssa.UnOp)
+				if !ok {
+					return false
+				}
+				switch c := ld.X.(type) {
+				case *ssa.Alloc:
+					return spillCell(val) == c
+				case *ssa.FreeVar:
+					for _, b := range uf.Blocks {
+						for _, i2 := range b.Instrs {
+							if mc, ok := i2.(*ssa.MakeClosure); ok && mc.Fn == ssa.Value(in) {
+								for k, fv := range in.FreeVars {
+									if fv == c && k < len(mc.Bindings) {
+										if al, ok := mc.Bindings[k].(*ssa.Alloc); ok && spillCell(val) == al {
+											return true
+										}
+									}
+								}
+							}
+						}
+					}
+				}
+				return false
 			}
-			if f := fieldOfSel(p, rs.X); f == nil || nm(f) != "typs" {
-				return true
-			}
-			// member.Validate(ctx, path, s); nil ⇒ matched/break
-			for _, ce := range callsIn(p, rs.Body) {
-				if se, isS := ce.Fun.(*ast.SelectorExpr); isS && se.Sel.Name == "Validate" && objOfIdent(p, se.X) == objOfIdent(p, rs.Value) && len(ce.Args) == 3 && objOfIdent(p, ce.Args[2]) == paramObj(p, ufd, 2) {
-					okU = true
+			for _, g := range append([]*ssa.Function{uf}, uf.AnonFuncs...) {
+				for _, b := range g.Blocks {
+					for _, in := range b.Instrs {
+						if c, ok := in.(*ssa.Call); ok && c.Call.IsInvoke() && nm(c.Call.Method) == "Validate" && len(c.Call.Args) == 3 && isVal(c.Call.Args[2], g) {
+							okU = true
+						}
+					}
 				}
 			}
-			return true
-		})
+		}
 		r.Check(okU, "R16.5", "union.Validate", ufd.Pos(), "accepts iff some member accepts the same string", "union does not try each member type on the value")
 		for _, typ := range []string{"Rb", "Urb", "Drb", "Lb"} {
 			m := w.Method("schema", typ, "Validate")
@@ -374,68 +400,7 @@ func checkC16(w *World, r *Report) {
 
 	r.Rule("R16.13", "the value space of an identityref is the list the compiler hands over: NewIdentityref stores its identity list as given (nil replaced by an empty list) — no identity is filtered out on the way (two modules may both derive an identity with the same local name)", 1)
 	r.guard("R16.13", func() {
-		f := w.SSAFunc(w.Func("schema", "NewIdentityref"))
-		if f == nil {
-			panic(undecided{"schema.NewIdentityref"})
-		}
-		var given *ssa.Parameter
-		for _, prm := range f.Params {
-			if sl, ok := prm.Type().Underlying().(*types.Slice); ok && strings.Contains(sl.Elem().String(), "Identity") {
-				given = prm
-			}
-		}
-		ids := w.Field("schema", "identityref", "identities")
-		n := 0
-		why := ""
-		var asGiven func(v ssa.Value, d int) bool
-		asGiven = func(v ssa.Value, d int) bool {
-			switch x := v.(type) {
-			case *ssa.Parameter:
-				return x == given
-			case *ssa.MakeSlice:
-				k, ok := intConstOf(x.Len)
-				return ok && k == 0
-			case *ssa.Slice:
-				// make([]T, 0): a slice of a fresh zero-length array
-				if a, ok := x.X.(*ssa.Alloc); ok {
-					if arr, ok := a.Type().Underlying().(*types.Pointer).Elem().Underlying().(*types.Array); ok && arr.Len() == 0 {
-						return true
-					}
-				}
-				return false
-			case *ssa.Phi:
-				if d > 3 {
-					return false
-				}
-				for _, e := range x.Edges {
-					if !asGiven(e, d+1) {
-						return false
-					}
-				}
-				return true
-			}
-			return false
-		}
-		for _, b := range f.Blocks {
-			for _, in := range b.Instrs {
-				st, ok := in.(*ssa.Store)
-				if !ok {
-					continue
-				}
-				fa, ok := st.Addr.(*ssa.FieldAddr)
-				if !ok || !isFieldAddrOf(fa, ids) {
-					continue
-				}
-				n++
-				if given == nil || !asGiven(st.Val, 0) {
-					why = "the list stored is `" + st.Val.String() + "`, computed from the one given"
-				}
-			}
-		}
-		if n == 0 {
-			panic(undecided{"NewIdentityref: store of the identity list"})
-		}
-		r.Check(why == "", "R16.13", "NewIdentityref keeps the list it is given", f.Pos(), "identities: ids", why+": a declared, derived identity can be missing from the type and is then rejected as a value")
+		r6ListStoredAsGiven(w, r, "R16.13", "NewIdentityref", "Identity", "identityref", "identities", "identities: ids", "a declared, derived identity can be missing from the type and is then rejected as a value")
 	})
 
 	r.Rule("R16.14", "the path in a rejection is written by the encoder that its readers decode: every error constructor of schema/errors.go sets Path to pathutil.Pathstr(…) of its path argument (pathutil.Makepath is its inverse; another escaping — '+' left as is — names a different value)", 8)
